@@ -201,6 +201,69 @@ def run(ctx):
         ctx.decide(has_get(val_, key_) and not others, "C11.restore", rfc.ident, loc_of(rfc), f"restored {key_} is read from the checkpoint's '{key_}' entry",
                    f"restored {key_} is {T.show(val_)[:120] if val_ else 'not set'}: it is not read from the checkpoint's '{key_}' entry" + (f" (it reads {others})" if others else ""), disc=key_)
 
+    # ---- exact provenance under the layout build_checkpoint_state writes (state and state['meta'] are dicts)
+    def _assume_layout(c):
+        if c[0] == "f" and c[1] in ("isinstance", "builtins.hasattr", "hasattr"):
+            return True
+        return None
+    from ..evalr import Evaluator as _Ev
+    evx = _Ev(repo, max_depth=3, no_inline={"aspire.samplers.base:Sampler.load_checkpoint_from_file", "aspire.samples:BaseSamples.from_samples"}, assume=_assume_layout)
+    rx = T.strip_raise(evx.run(rfc, smc))
+
+    def getter(t, key, base=None):
+        return t is not None and t[0] == "f" and t[1] == "method:get" and len(t[2]) >= 2 and t[2][1] == T.K(key) and (base is None or t[2][0] == base)
+    pool_ = [s_ for t_ in [rx] + [v_ for v_ in evx.heap.values() if isinstance(v_, tuple)] for s_ in T.subterms(t_)]
+    S_ = next((s_[2][0] for s_ in pool_ if getter(s_, "samples")), None)
+    M_ = next((s_ for s_ in pool_ if S_ is not None and getter(s_, "meta", S_)), None)
+    if S_ is None or M_ is None or rx[0] != "t" or len(rx[1]) != 3:
+        ctx.unknown("C11.restore", rfc.ident, loc_of(rfc), "restore_from_checkpoint does not read state['samples'] / state['meta'] in a recognisable way", disc="layout")
+    else:
+        def set_value(t, key, base):
+            """value of t on the path where base[key] is present (not None)"""
+            gets = [x for x in T.subterms(t) if getter(x, key, base)]
+
+            def oracle(c):
+                if c[0] == "is" and c[2] == T.NONE and c[1] in gets:
+                    return False
+                return _assume_layout(c)
+            return T.resolve(t, oracle)
+        rng_val = evx.heap.get((("attr", self_attr("rng"), "bit_generator"), "state"))
+        exact = {
+            "beta": (set_value(rx[1][1], "beta", M_), "beta", M_, "state['meta']['beta']"),
+            "min_step": (evx.heap.get((SELF, "_restored_min_step")), "min_step", M_, "state['meta']['min_step']"),
+            "iteration": (rx[1][2], "iteration", S_, "state['iteration']"),
+            "history": (evx.heap.get((SELF, "history")), "history", S_, "state['history']"),
+            "rng_state": (set_value(rng_val, "rng_state", S_) if rng_val is not None else None, "rng_state", S_, "state['rng_state']"),
+        }
+        for nm, (val_, key_, base_, where) in exact.items():
+            ctx.decide(getter(val_, key_, base_), "C11.restore", rfc.ident, loc_of(rfc), f"whenever the checkpoint holds it, the restored {nm} is exactly {where}",
+                       f"with a checkpoint in the layout build_checkpoint_state writes, the restored {nm} is {T.show(val_)[:160] if val_ else 'not set'}, not {where}: "
+                       "the resumed run continues from a different state", disc=f"{nm}|exact")
+
+    # ---- the three documented checkpoint sources: path -> file loader, bytes -> unpickled, dict -> used as is
+    base_cls = repo.cls("aspire.samplers.base:Sampler")
+    brf = base_cls.resolve("restore_from_checkpoint")
+    src_ = T.atom(brf.params[1])
+    wanted_state = {
+        "str": lambda t: t[0] == "f" and t[1].endswith("load_checkpoint_from_file") and src_ in t[2],
+        "bytes": lambda t: t[0] == "f" and t[1] == "pickle.loads" and t[2] == (src_,),
+        "dict": lambda t: t == src_,
+    }
+    for ty, okf in wanted_state.items():
+        def _as(c, ty=ty):
+            if c[0] == "f" and c[1] == "isinstance" and c[2][0] == src_:
+                return c[2][1] == ("ref", f"builtins.{ty}")
+            return None
+        evb = _Ev(repo, max_depth=1, no_inline={"aspire.samplers.base:Sampler.load_checkpoint_from_file", "aspire.samples:BaseSamples.from_samples"}, assume=_as)
+        rb_ = T.strip_raise(evb.run(brf, base_cls))
+        okb = rb_[0] == "t" and len(rb_[1]) == 2 and okf(rb_[1][1]) and rb_[1][0][0] == "f" and "from_samples" in rb_[1][0][1] \
+            and len(rb_[1][0][2]) >= 2 and getter(rb_[1][0][2][1], "samples", rb_[1][1])
+        extra_ = [e for e in evb.events if e.callee.endswith("_restore_extra_state")]
+        okb = okb and len(extra_) == 1 and extra_[0].args[0] == rb_[1][1]
+        ctx.decide(okb, "C11.src", brf.ident, loc_of(brf), f"a checkpoint passed as {ty} is " + {"str": "loaded from that file", "bytes": "unpickled", "dict": "used as is"}[ty]
+                   + "; population and extra state come from it",
+                   f"for a checkpoint passed as {ty} restore returns {T.show(rb_)[:200]}", disc=f"source|{ty}")
+
     # ---- self attributes carried across iterations, per concrete class
     n_cls = 0
     for c in repo.subclasses(smc, strict=True):
@@ -288,8 +351,15 @@ def run(ctx):
         if gval is not None and gval[0] == "phi" and gval[1][0] == "cmp" and gval[1][1] == ">=" and len(gval[1]) == 3 \
                 and T.linear_form(gval[1][2]).get((), 0) == -1:
             d_ = T.add(gval[1][2], T.ONE)
-            okf = T.select(gval, gval[1], True) == T.FALSE and T.select(gval, gval[1], False) == T.TRUE and any(
-                s_ and s_[0] == "attr" and s_[2] == "beta" for s_ in T.subterms(d_))
+            # the temperature tested is the last recorded one, or the restored temperature when nothing was recorded
+            beta_pre = lpr["pre"].get("beta")
+
+            def _last_beta(t):
+                if t[0] == "phi":
+                    hb = t[1]
+                    return hb[0] == "attr" and hb[2] == "beta" and t[2] == ("s", hb, T.neg(T.ONE)) and t[3] == beta_pre
+                return t == beta_pre or (t[0] == "s" and t[1][0] == "attr" and t[1][2] == "beta" and t[2] == T.neg(T.ONE))
+            okf = T.select(gval, gval[1], True) == T.FALSE and T.select(gval, gval[1], False) == T.TRUE and _last_beta(d_)
         fresh_g = sf_fresh.loop["pre"].get(gname) if gname and sf_fresh.loop else None
         ctx.decide(okf and fresh_g == T.TRUE, "C11.finished", sample.ident, loc_of(sample, guard_names[0] if guard_names else loop_node),
                    "the loop is skipped exactly when the restored history already ends at beta >= 1 (a fresh run always iterates)",
@@ -463,10 +533,17 @@ MUTANTS = [
 ]
 MUTANTS += [
     M("payload arguments swapped", _B, "samples, iterations, beta, min_step=min_step", "iterations, samples, beta, min_step=min_step", "C11.state"),
+    M("stored temperature ignored unless meta is not a dict", _B, "if isinstance(meta, dict):\n            beta = meta.get(\"beta\", None)", "if not isinstance(meta, dict):\n            beta = meta.get(\"beta\", None)", "C11.restore"),
+    M("stored temperature overridden by the root default", _B, "if beta is None:\n            beta = state.get(\"beta\", 0.0)", "if beta is not None:\n            beta = state.get(\"beta\", 0.0)", "C11.restore"),
+    M("generator state restored only when absent", _B, "if rng_state is not None and hasattr(self.rng, \"bit_generator\"):", "if rng_state is None and hasattr(self.rng, \"bit_generator\"):", "C11.restore"),
+    M("bytes checkpoints treated as paths", "src/aspire/samplers/base.py", "if isinstance(source, str):\n            state = self.load_checkpoint_from_file(source)\n        elif isinstance(source, bytes):\n            state = pickle.loads(source)",
+      "if isinstance(source, (str, bytes)):\n            state = self.load_checkpoint_from_file(source)", "C11.src"),
+    M("extra sampler state never restored", "src/aspire/samplers/base.py", "self._restore_extra_state(state)\n        return samples, state", "return samples, state", ("C11.src", "C11.state")),
     M("restored iteration read from the wrong key", _B, "iteration = state.get(\"iteration\", 0)", "iteration = state.get(\"iter\", 0)", ("C11.restore", "C11.keys")),
     M("restored beta read from the state root only", _B, "beta = meta.get(\"beta\", None)", "beta = meta.get(\"min_step\", None)", "C11.restore"),
     M("history default replaces the stored one", _B, "self.history = state.get(\"history\", SMCHistory())", "self.history = SMCHistory()", "C11.restore"),
     M("bytes source treated as a path", _SB, "if isinstance(source, str):\n            state = self.load_checkpoint_from_file(source)\n        elif isinstance(source, bytes):\n            state = pickle.loads(source)", "if isinstance(source, bytes):\n            state = self.load_checkpoint_from_file(source)\n        elif isinstance(source, str):\n            state = pickle.loads(source)", "C11.src"),
+    M("finished test looks at the second recorded temperature", _B, "last_beta = self.history.beta[-1] if self.history.beta else beta", "last_beta = self.history.beta[1] if self.history.beta else beta", "C11.finished"),
     M("finished run iterates again on resume", _B, "if last_beta >= 1.0:\n                run_smc_loop = False", "if last_beta > 1.0:\n                run_smc_loop = False", "C11.finished"),
     M("enlargement when sizes are equal", _B, "if n_final_samples is not None and len(samples.x) != n_final_samples:", "if n_final_samples is not None and len(samples.x) == n_final_samples:", "C11.idem"),
     M("enlargement guarded by the requested sizes", _B, "if n_final_samples is not None and len(samples.x) != n_final_samples:", "if n_final_samples is not None and n_final_samples != n_samples:", "C11.idem"),
